@@ -196,3 +196,10 @@ package actionlint
 //@   at_call [C13 C08] (*parser).parseMapping: caseSensitive
 //@ func (*parser).parseSectionMapping
 //@   at_call [C13 C08] (*parser).parseMapping: caseSensitive == caseSensitive0
+
+//@ func (*parser).parseConcurrency
+//@   loop "range p.parseSectionMapping(\"concurrency\", n, false, true)":
+//@     invariant [C13] (groupFound ==> ret.Group != nil) && len(p.errors) >= old(len(p.errors))
+//@ func (*parser).parseEnvironment
+//@   loop "range p.parseSectionMapping(\"environment\", n, false, true)":
+//@     invariant [C13] (nameFound ==> ret.Name != nil) && len(p.errors) >= old(len(p.errors))
